@@ -204,3 +204,72 @@ def mech_nontrivial(line):
     except Exception:
         return False
     return False
+
+
+# ---------------------------------------------------------------------------------------
+# lu       alg csc L nblocks n npairs (r c)* values[nblocks*npairs]
+# linsolve alg csc L nblocks n npairs (r c)* values[nblocks*npairs] rhs[nblocks*n]
+#   alg: 0 Doolittle, 1 Mozart, 2 DoolittleInPlace, 3 MozartInPlace ; patterns have a full diagonal
+# ---------------------------------------------------------------------------------------
+P31 = 2147483647
+
+
+def offdiag_patterns(n):
+    cells = [(r, c) for r in range(n) for c in range(n) if r != c]
+    for mask in range(1 << len(cells)):
+        yield [cells[i] for i in range(len(cells)) if (mask >> i) & 1]
+
+
+def _lu_line(rng, fam, alg, n, offdiag, solve):
+    csc = rng.randrange(2)
+    L = rng.randrange(0, 5)
+    nb = rng.randrange(1, (2 * L + 2) if L else 4)
+    pairs = sorted(set([(i, i) for i in range(n)] + list(offdiag)))
+    small = rng.random() < 0.2
+    vals = [rng.randrange(1, 10 if small else P31) for _ in range(nb * len(pairs))]
+    t = [alg, csc, L, nb, n, len(pairs)]
+    for r, c in pairs:
+        t += [r, c]
+    t += vals
+    if solve:
+        t += [rng.randrange(0, P31) for _ in range(nb * n)]
+    return fam + " " + " ".join(map(str, t))
+
+
+def _gen_linalg(rng, tier, fam, solve):
+    out = []
+    nmax = 4 if tier == "thorough" else 3
+    for n in range(1, nmax + 1):
+        for off in offdiag_patterns(n):
+            for alg in range(4):
+                out.append(_lu_line(rng, fam, alg, n, off, solve))
+    for _ in range(vol(tier, 400, 6000)):
+        n = rng.choice([4, 5, 5, 6, 7, 8])
+        dens = rng.choice([0.1, 0.2, 0.35, 0.6])
+        off = [(r, c) for r in range(n) for c in range(n) if r != c and rng.random() < dens]
+        out.append(_lu_line(rng, fam, rng.randrange(4), n, off, solve))
+    return out
+
+
+def gen_lu(rng, tier):
+    return _gen_linalg(rng, tier, "lu", False)
+
+
+def gen_linsolve(rng, tier):
+    return _gen_linalg(rng, tier, "linsolve", True)
+
+
+def lu_histogram(lines):
+    h = {"alg": {}, "n": {}, "L": {}, "order": {}, "partial_group": 0}
+    for l in lines:
+        t = l.split()
+        if t[0] not in ("lu", "linsolve"):
+            continue
+        alg, csc, L, nb, n = map(int, t[1:6])
+        h["alg"][str(alg)] = h["alg"].get(str(alg), 0) + 1
+        h["n"][str(n)] = h["n"].get(str(n), 0) + 1
+        h["L"][str(L)] = h["L"].get(str(L), 0) + 1
+        h["order"]["csc" if csc else "csr"] = h["order"].get("csc" if csc else "csr", 0) + 1
+        if L and nb % L:
+            h["partial_group"] += 1
+    return h
